@@ -100,6 +100,19 @@ fn diff_path(a: &Value, b: &Value, path: &str, out: &mut Vec<String>) {
     }
 }
 
+/// A JSON list (or the list inside a one-field object) with its elements in
+/// a canonical order.
+fn sorted_list(v: Value) -> Value {
+    match v {
+        Value::Array(mut a) => {
+            a.sort_by_cached_key(|x| x.to_string());
+            Value::Array(a)
+        }
+        Value::Object(m) => Value::Object(m.into_iter().map(|(k, x)| (k, sorted_list(x))).collect()),
+        other => other,
+    }
+}
+
 /// API-observable views of the live instance (no masking).
 fn api_views(w: &World) -> Value {
     let cm = w.krill.ca_manager();
@@ -123,8 +136,10 @@ fn api_views(w: &World) -> Value {
                 serde_json::json!({
                     "info": serde_json::to_value(ca.as_ca_info()).unwrap(),
                     "roas": serde_json::to_value(roas).unwrap(),
-                    "aspas": serde_json::to_value(ca.aspas_definitions_show()).unwrap(),
-                    "bgpsec": serde_json::to_value(ca.bgpsec_definitions_show()).unwrap(),
+                    // (lists of definitions come in the iteration order of a
+                    // hash map: compared as sets)
+                    "aspas": sorted_list(serde_json::to_value(ca.aspas_definitions_show()).unwrap()),
+                    "bgpsec": sorted_list(serde_json::to_value(ca.bgpsec_definitions_show()).unwrap()),
                     "children": children,
                 }),
             );
